@@ -157,6 +157,10 @@ func c03CheckR(c c03RCase) h.Result {
 	c03RExpect(r, "Neg(alias)", x.Neg(x), ref.Neg(pr))
 	c03RExpect(r, "Sum", New().Sum([]*curve.RistrettoPoint{p, q, p}), ref.Add(ref.Add(pr, qr), pr))
 	c03RExpect(r, "Sum(empty)", cp(p).Sum(nil), ref.Identity())
+	x = cp(p)
+	c03RExpect(r, "Sum(alias)", x.Sum([]*curve.RistrettoPoint{x, q}), ref.Add(pr, qr))
+	x = cp(q)
+	c03RExpect(r, "Sum(alias)", x.Sum([]*curve.RistrettoPoint{p, x, p}), ref.Add(ref.Add(pr, qr), pr))
 	r.Eval(2)
 	if got := p.Equal(q); (got == 1) != same || (got != 0 && got != 1) {
 		r.Fail("RistrettoPoint.Equal:wrong", "p=%x q=%x got=%d", pEnc, qEnc, got)
